@@ -197,6 +197,11 @@ func (ex *Exec) scanMods(fr *frame, l *Loop, st *State) *loopMods {
 					m.get("chan:" + shortTypeName(el) + ".nsent").whole = true
 				case *ssa.Select:
 					for _, s := range in.States {
+						if c, ok := s.Chan.(*ssa.Call); ok && s.Dir == types.RecvOnly && c.Call.IsInvoke() && c.Call.Method.Name() == "Done" {
+							if _, declared := ex.P.CS.Ghosts["ctxEnded"]; declared {
+								m.get("ghost:ctxEnded").whole = true
+							}
+						}
 						if s.Dir == types.SendOnly {
 							el := s.Chan.Type().Underlying().(*types.Chan).Elem()
 							ex.hintChanRegions(el)
